@@ -456,6 +456,11 @@ impl<'a> Socket<'a> {
 
                 let mut addresses = Vec::new();
 
+                // Head of the CNAME chain while walking the answers. It is a copy: the pending
+                // query keeps the name it was started with, so a response that is abandoned
+                // half-way (malformed record or CNAME) leaves the query untouched.
+                let mut name = pq.name.clone();
+
                 for _ in 0..p.answer_record_count() {
                     let (payload2, r) = match Record::parse(payload) {
                         Ok(x) => x,
@@ -466,7 +471,7 @@ impl<'a> Socket<'a> {
                     };
                     payload = payload2;
 
-                    match eq_names(p.parse_name(r.name), p.parse_name(&pq.name)) {
+                    match eq_names(p.parse_name(r.name), p.parse_name(&name)) {
                         Ok(true) => {}
                         Ok(false) => {
                             net_trace!("answer name mismatch: {:?}", r);
@@ -493,17 +498,17 @@ impl<'a> Socket<'a> {
                                 net_trace!("too many addresses in response, ignoring {:?}", addr);
                             }
                         }
-                        RecordData::Cname(name) => {
-                            net_trace!("CNAME: {:?}", name);
+                        RecordData::Cname(cname) => {
+                            net_trace!("CNAME: {:?}", cname);
 
                             // When faced with a CNAME, recursive resolvers are supposed to
                             // resolve the CNAME and append the results for it.
                             //
-                            // We update the query with the new name, so that we pick up the A/AAAA
+                            // We continue with the new name, so that we pick up the A/AAAA
                             // records for the CNAME when we parse them later.
                             // I believe it's mandatory the CNAME results MUST come *after* in the
                             // packet, so it's enough to do one linear pass over it.
-                            if copy_name(&mut pq.name, p.parse_name(name)).is_err() {
+                            if copy_name(&mut name, p.parse_name(cname)).is_err() {
                                 net_trace!("dns answer cname malformed");
                                 return;
                             }
